@@ -244,7 +244,17 @@ impl PartialEq for Value_ {
                     type_name: other_type_name,
                     ..
                 },
-            ) => self_type_name == other_type_name && self_fields == other_fields,
+            ) => {
+                // The fields are stored in the order the struct literal
+                // listed them, which is not part of the value.
+                self_type_name == other_type_name
+                    && self_fields.len() == other_fields.len()
+                    && self_fields.iter().all(|(name, value)| {
+                        other_fields
+                            .iter()
+                            .any(|(other_name, other_value)| name == other_name && value == other_value)
+                    })
+            }
             _ => false,
         }
     }
